@@ -126,19 +126,31 @@ class Serial:
         return a
 
 
-def make_tree(rng, nslab=3, slab_inds=None, halos_per_slab=None, box=500.0, velz=1234.5, ppd=64, nprev=2, compression=None, gap_prob=0.5, zero_part_prob=0.15, cleaned_away_prob=0.15, merge_prob=0.4, trailing=True, sim='SimA', smallratio=False, root=None, max_np=12, int_header=False):
+def make_tree(rng, nslab=3, slab_inds=None, halos_per_slab=None, box=500.0, velz=1234.5, ppd=64, nprev=2, compression=None, gap_prob=0.5, zero_part_prob=0.15, cleaned_away_prob=0.15, merge_prob=0.4, trailing=True, sim='SimA', smallratio=False, root=None, max_np=12, int_header=False, clean_layout=1):
     root = root or tempfile.mkdtemp(prefix='verif_cat_')
     if slab_inds is None:
         slab_inds = list(range(nslab))
     if halos_per_slab is None:
         halos_per_slab = [int(rng.integers(0, 30)) for _ in slab_inds]
-    zdir = os.path.join(root, sim, 'halos', 'z0.500')
-    cdir = os.path.join(root, 'cleaning', sim, 'z0.500')
+    # the four documented layouts of the cleaning tree (see _setup_file_paths)
+    if clean_layout == 2:
+        zdir = os.path.join(root, 'subsuite', sim, 'halos', 'z0.500')
+        cdir = os.path.join(root, 'cleaning', 'subsuite', sim, 'z0.500')
+        cleanroot = os.path.join(root, 'cleaning')
+    elif clean_layout in (3, 4):
+        zdir = os.path.join(root, sim, 'halos', 'z0.500')
+        cdir = os.path.join(root, sim, 'cleaning', 'z0.500')
+        cleanroot = os.path.join(root, sim, 'cleaning')
+    else:
+        zdir = os.path.join(root, sim, 'halos', 'z0.500')
+        cdir = os.path.join(root, 'cleaning', sim, 'z0.500')
+        cleanroot = os.path.join(root, 'cleaning')
+    sub_hi, sub_rp = ((), ()) if clean_layout == 4 else (('cleaned_halo_info',), ('cleaned_rvpid',))
     # headers written by other tools may hold integral values as ints
     header = dict(BoxSize=(int(box) if int_header and float(box).is_integer() else float(box)), VelZSpace_to_kms=(int(velz) if int_header and float(velz).is_integer() else float(velz)), ppd=float(ppd), SimName=sim, Redshift=0.5, OutputType='GroupOutput', ParticleSubsampleA=0.03, ParticleSubsampleB=0.07, CPD=15)
     cheader = dict(header, TimeSliceRedshiftsPrev=[0.6 + 0.1 * i for i in range(nprev)])
     serial = Serial()
-    truth = dict(root=root, path=zdir, cleandir=os.path.join(root, 'cleaning'), header=header, slab_inds=list(slab_inds), slabs={}, box=box, velz=velz, ppd=ppd, nprev=nprev, sim=sim)
+    truth = dict(root=root, path=zdir, cleandir=cleanroot, clean_layout=clean_layout, header=header, slab_inds=list(slab_inds), slabs={}, box=box, velz=velz, ppd=ppd, nprev=nprev, sim=sim)
     next_id = 1000
     for slab, H in zip(slab_inds, halos_per_slab):
         raw = {}
@@ -199,9 +211,9 @@ def make_tree(rng, nslab=3, slab_inds=None, halos_per_slab=None, box=500.0, velz
         for ab in 'AB':
             write_asdf(_mk(zdir, f'halo_rv_{ab}', f'halo_rv_{ab}_{slab:03d}.asdf'), dict(header=header, data=dict(rvint=parts[ab]['rvint'])), comp)
             write_asdf(_mk(zdir, f'halo_pid_{ab}', f'halo_pid_{ab}_{slab:03d}.asdf'), dict(header=header, data=dict(packedpid=parts[ab]['packedpid'])), comp)
-        write_asdf(_mk(cdir, 'cleaned_halo_info', f'cleaned_halo_info_{slab:03d}.asdf'), dict(header=cheader, data=clean), comp)
+        write_asdf(_mk(cdir, *sub_hi, f'cleaned_halo_info_{slab:03d}.asdf'), dict(header=cheader, data=clean), comp)
         write_asdf(
-            _mk(cdir, 'cleaned_rvpid', f'cleaned_rvpid_{slab:03d}.asdf'),
+            _mk(cdir, *sub_rp, f'cleaned_rvpid_{slab:03d}.asdf'),
             dict(header=cheader, data=dict(packedpid_A=cparts['A']['packedpid'], packedpid_B=cparts['B']['packedpid'], rvint_A=cparts['A']['rvint'], rvint_B=cparts['B']['rvint'])),
             comp,
         )
